@@ -226,6 +226,31 @@ def handleSrv (st : St) (kind : String) (a : Args) (obs : String) : IO St := do
     -- for years): one archived week without devices; the window then starts 2016 slots after it
     let w : Week := { devs := [], tso := argNat a "tso", sig := zeros 64 }
     return { st with srv := { st.srv with disk := { st.srv.disk with weeks := st.srv.disk.weeks ++ [w] } } }
+  | "srv.damage" =>
+    -- the medium flipped one bit of a stored record (the process is down). The record-level disk of the
+    -- model changes accordingly; what a start makes of it is the model's `load`
+    let d := st.srv.disk
+    let bit := argNat a "bit"
+    let flip (bs : Bytes) : Bytes := bs.zipIdx.map (fun (x, i) => if i == bit / 8 then x ^^^ ((1 : UInt8) <<< UInt8.ofNat (bit % 8)) else x)
+    let idx := argNat a "idx"
+    let d' := if arg a "file" == "auths" then
+        match d.auths[idx]? with
+        | some r => match Auth.decode (flip (Auth.encode r)) with
+          | some r' => { d with auths := d.auths.set idx r' }
+          | none => d
+        | none => d
+      else
+        match d.reports[idx]? with
+        | some r => match Report.decode (flip (Report.encode r)) with
+          | some r' => { d with reports := d.reports.set idx r' }
+          | none => d
+        | none => d
+    return { st with srv := { st.srv with disk := d' } }
+  | "srv.startfault" =>
+    -- a file of the directory could not be read when the server was started (an I/O error, not "no such
+    -- file"): the start has to fail - a server that comes up without what it could not read has forgotten
+    -- facts it had accepted - and nothing is changed by the attempt
+    if obs == "fail" then return st else report st kind "fail" obs
   | "srv.tear" =>
     -- a crash left the directory in a torn state (the process is gone: only the disk matters)
     let d := st.srv.disk
@@ -536,8 +561,10 @@ def handleCl (st : St) (kind : String) (a : Args) (obs : String) : IO St := do
       let (c', out) := Cl.syncRound c choices
       let st := { st with cl := some c' }
       let latest := argNat a "latest"
+      -- readfault=1: every read of the history store failed during this round (I/O error): a slot that cannot
+      -- be read is skipped, so nothing is retransmitted
       let (res, resent) := match out with
-        | .synced p _ => ("synced", Cl.resend c'.hist latest p.off p.bits)
+        | .synced p _ => ("synced", if argNat a "readfault" == 1 then [] else Cl.resend c'.hist latest p.off p.bits)
         | .badChoice => ("BADCHOICE", [])
         | _ => ("failed", [])
       let disk := s!"gca={hx c'.diskGCA} id={c'.diskShortId} servers={canonCServers c'.diskServers}"
@@ -551,6 +578,16 @@ def handleCl (st : St) (kind : String) (a : Args) (obs : String) : IO St := do
       let st ← if m == obs then pure st else report st kind m obs
       match prim, out with
       | some p, .synced _ via => if hx via == p then return st else report st (kind ++ ":primary") (hx via) p
+      | some p, .badChoice => let _ := p; return st
+      | some p, _ =>
+        -- a round that failed: if anything was eligible when it started it made an attempt, and every attempt
+        -- points the client at a server that is known and not banned (c11_primary_after_attempt); giving up
+        -- does not fall back to anything else
+        if c.servers.any (fun e => Cl.eligible c [] e.1) then
+          match c.servers.find? (fun e => hx e.1 == p) with
+          | some e => if e.2.banned then report st (kind ++ ":primary") "a server that is not banned" (p ++ " (banned)") else return st
+          | none => report st (kind ++ ":primary") "a known server" p
+        else return st
       | _, _ => return st
   | "cl.round.begin" =>
     -- a round starts and is held inside its first attempt(s), all of which will fail
